@@ -85,6 +85,13 @@ def exhaustive(tier):
                     for i in (range(-3, 4) if op in ("insert", "setitem") else (0,)):
                         yield {"mode": "reoffer", "configtype": configtype, "n": n, "j": j, "what": op, "i": i}
 
+    # a typed dict whose KEY field normalises what it is given (numbers from text, case, blanks): every single-entry
+    # operation with a key that is legal but not in normal form, present or absent, with a good or a bad value
+    for keyf in ("int", "lower", "strip", "upper-strip"):
+        for op in ("setitem", "setdefault", "update1", "update-pairs", "update-kw", "ior", "pop", "delitem", "getitem"):
+            for present in (False, True):
+                for bad_value in (False, True):
+                    yield {"mode": "raw-key", "keyf": keyf, "what": op, "present": present, "bad_value": bad_value}
     # a MAP offered as one element of a list of configurations whose items carry a cross-field rule: every held state x
     # every map over a small grid (keys present / absent, good / conflicting / wrongly typed values) x operation x index
     for configtype in (False, True):
@@ -92,6 +99,58 @@ def exhaustive(tier):
             for op in ("append", "insert", "setitem", "extend1", "iadd1", "setslice1"):
                 for i in ((-2, -1, 0, 1) if op in ("insert", "setitem", "setslice1") else (0,)):
                     yield {"mode": "item-map", "configtype": configtype, "held": held, "what": op, "i": i}
+
+
+def _raw_key_case(case, R):
+    cc = sandbox._state["cc"]
+    keyf, what = case["keyf"], case["what"]
+    R.label("raw-key", "raw-key:" + what)
+    field = {"int": lambda: cc.IntField(), "lower": lambda: cc.StringField(transform_case="lower"), "strip": lambda: cc.StringField(transform_strip=True),
+             "upper-strip": lambda: cc.StringField(transform_case="upper", transform_strip=True)}[keyf]()
+    raw, normal, other = {"int": ("7", 7, 8), "lower": ("Web", "web", "db"), "strip": (" web ", "web", "db"), "upper-strip": (" web\n", "WEB", "DB")}[keyf]
+    schema = cc.Schema()
+    schema.table = cc.DictField(field, cc.IntField(min=0, max=100))
+    schema.sub.table = cc.DictField(field, cc.IntField(min=0, max=100))
+    schema.other = cc.IntField(default=1)
+    for owner in (lambda c: c, lambda c: c.sub):
+        cfg = schema()
+        owner(cfg).table = dict([(other, 1)] + ([(normal, 2)] if case["present"] else []))
+        d = owner(cfg).table
+        value = 1000 if case["bad_value"] else 5
+        before = worlds.snapshot(cfg, cc, with_ids=True)
+        try:
+            if what == "setitem":
+                d[raw] = value
+            elif what == "setdefault":
+                d.setdefault(raw, value)
+            elif what == "update1":
+                d.update({raw: value})
+            elif what == "update-pairs":
+                d.update([(raw, value)])
+            elif what == "update-kw":
+                if not isinstance(raw, str):
+                    return
+                d.update(**{raw: value})
+            elif what == "ior":
+                d |= {raw: value}
+            elif what == "pop":
+                d.pop(raw)
+            elif what == "delitem":
+                del d[raw]
+            else:
+                d[raw]
+            raised = None
+        except Exception as exc:
+            raised = exc
+        if raised is None:
+            R.label("raw-key:returned")
+            continue
+        R.label("judged:raw-key")
+        R.nontrivial = True
+        after = worlds.snapshot(cfg, cc, with_ids=True)
+        R.check(before == after, "unchanged", "raw-key:" + what,
+                lambda: "%s with the key %r (normal form %r, %s) and the value %r raised %r and changed the dict: %s" % (
+                    what, raw, normal, "present" if case["present"] else "absent", value, raised, worlds.diff(before, after)))
 
 
 def _item_map_case(case, R):
@@ -415,6 +474,8 @@ def run_case(case, R):
         return _reoffer_case(case, R)
     if case.get("mode") == "assign-object":
         return _assign_object_case(case, R)
+    if case.get("mode") == "raw-key":
+        return _raw_key_case(case, R)
     if case.get("mode") == "item-map":
         return _item_map_case(case, R)
     cc = sandbox._state["cc"]
